@@ -53,7 +53,7 @@ def run(ctx):
     # V1 / V2 are fixed findings: if they come back they are ordinary violations (known_findings.json)
     if bad:
         # property violations first, smallest plan first; one replay per distinct verdict code
-        bad.sort(key=lambda x: (not x[3], x[0]["dist"]["objects"], len(x[0]["dist"]["mutations"])))
+        bad.sort(key=lambda x: (not x[3], len(x[0]["dist"]["mutations"]), x[0]["dist"]["objects"]))
         seen = set()
         for c, codev, text, viol in bad:
             if codev in seen:
